@@ -166,6 +166,14 @@ Example readers_load_once_ok :
   loads GenSync.skel_Router_ServeHTTP = [([], Call "Router.getRoot")] /\
   loads GenSync.skel_Router_Has = [([], Call "Router.Route")].
 Proof. exact (conj eq_refl (conj eq_refl eq_refl)). Qed.
+(* the functions from which a load of the published tree is reachable (static call graph of the package) *)
+Example loaders_ok :
+  GenSync.loaders =
+  ["Router.MustHandle"; "Router.Handle"; "Router.HandleRoute"; "Router.Update"; "Router.UpdateRoute"; "Router.Delete";
+   "Router.Has"; "Router.Route"; "Router.Reverse"; "Router.Lookup"; "Router.Len"; "Router.Iter"; "Router.Updates";
+   "Router.View"; "Router.Txn"; "Router.txnWith"; "Router.getRoot"; "Router.ServeHTTP"; "NewTestContext";
+   "NewTestContextOnly"; "newTextContextOnly"; "newTestContext"]%string.
+Proof. exact eq_refl. Qed.
 (* nothing else in the production package touches Router.mu / Router.tree / Txn.rootTxn or loads the tree *)
 Example sync_sites_ok : GenSync.sync_sites = expected_sync_sites.
 Proof. exact eq_refl. Qed.
